@@ -597,9 +597,11 @@ impl<T: TypeConfig> RaftRoleState for LeaderState<T> {
         new_match_id: u64,
     ) -> Result<()> {
         // Pipeline responses can arrive out of order; only advance, never retreat.
-        let current = self.match_index.get(&node_id).copied().unwrap_or(0);
-        if new_match_id > current {
-            self.match_index.insert(node_id, new_match_id);
+        // Always keep an entry for a tracked peer (0 = nothing matched yet): quorum arithmetic
+        // is done over this map, so a peer that has not acknowledged anything must count as 0.
+        let current = self.match_index.entry(node_id).or_insert(0);
+        if new_match_id > *current {
+            *current = new_match_id;
         }
         Ok(())
     }
